@@ -350,6 +350,8 @@ def make_case(rng, bucket):
         cand = [o for o in w.objs if o["present"] and o["t"] in ("commit", "tree", "blob") and o["id"] not in wants]
         for o in rng.sample(cand, min(len(cand), rng.choice([1, 1, 2]))):
             o["present"] = False
+        if rng.random() < 0.4:
+            haves = [h for h in haves if w.get(h)["t"] != "commit"]      # walkFull over an incomplete store
     return finish_case(w, bucket, wants, haves, shallow)
 
 
@@ -463,7 +465,7 @@ class Main(Suite):
 
     BUCKETS = [(3, "random"), (2, "skew"), (2, "crisscross"), (1, "equaltimes"), (1, "octopus"), (1, "chain"),
                (1, "tiny"), (1, "nohaves"), (2, "objwants"), (1, "missinghaves"), (1, "dups"), (2, "shallow"),
-               (1, "incomplete"), (2, "treeswap")]
+               (2, "incomplete"), (2, "treeswap")]
 
     def gen(self, rng, n, tier):
         return [make_case(rng, pick_weighted(rng, self.BUCKETS)) for _ in range(n)]
